@@ -73,7 +73,7 @@ theorem msgRecvPacket_log (s : State) (p : Packet) (π : Proof) (h : Nat) (t : S
       · exact .same rfl
   · unfold msgRecvPacket
     rw [e]
-    rcases hcls with rfl | rfl | rfl <;> exact .same rfl
+    rcases hcls with rfl | rfl | rfl | rfl <;> exact .same rfl
 
 theorem msgAcknowledgement_log (s : State) (p : Packet) (a : Data) (π : Proof) (h : Nat) :
     LogDelta H s (msgAcknowledgement H Hc s p a π h).1 := by
